@@ -654,6 +654,22 @@ def r06_10(ctx: Ctx, rule: str = "R06.10") -> None:
                 else:
                     ok = False
                     why = f"window {norm(start)} .. {norm(end)} is not the stream range of folder {idx}; " + STREAM_NOTE
+            elif isinstance(it, ast.Call) and dotted(it.func) == "zip" and len(it.args) == 2 and isinstance(tg, ast.Tuple) and len(tg.elts) == 2 \
+                    and isinstance(tg.elts[0], ast.Name) and tg.elts[0].id == fsub.id and isinstance(tg.elts[1], ast.Tuple) and len(tg.elts[1].elts) == 2 \
+                    and all(isinstance(e, ast.Name) for e in tg.elts[1].elts) and isinstance(it.args[1], ast.Name):
+                # (D') for folder, (first, last) in zip(folders, T): each full-list folder with its own entry of the stream table
+                a, b = tg.elts[1].elts[0].id, tg.elts[1].elts[1].id
+                pa = [x for x in ast.walk(start) if isinstance(x, ast.Subscript) and ends_in(x.value, "packpositions")]
+                pb = [x for x in ast.walk(end) if isinstance(x, ast.Subscript) and ends_in(x.value, "packpositions")]
+                why = None
+                if not (len(pa) == 1 and len(pb) == 1 and norm(pa[0].slice) == a and norm(pb[0].slice) == b):
+                    why = f"window {norm(start)} .. {norm(end)} is not positions[{a}] .. positions[{b}] of the zipped table entry"
+                elif not ends_in(it.args[0], "folders"):
+                    why = f"`{norm(it.args[0])}` is not the archive's full folder list on every path"
+                else:
+                    why = stream_table(it.args[1].id)
+                ok = why is None
+                why = why or ""
             elif isinstance(it, ast.Call) and dotted(it.func) == "zip" and len(it.args) == 3 and isinstance(tg, ast.Tuple) and len(tg.elts) == 3 \
                     and all(isinstance(e, ast.Name) for e in tg.elts) and tg.elts[0].id == fsub.id:
                 # (C) for folder, a, b in zip(folders, positions, positions[1:])
